@@ -489,6 +489,11 @@ def gen_skip_stress(rng):
     from whoosh import query
 
     def term():
+        if rng.random() < 0.12:
+            # a positional leaf: its matcher filters an intersection of long posting lists by positions, and must stay on a
+            # real phrase match after every block skip
+            ws = rng.sample(VOCAB[:5], 2)
+            return query.Phrase("t", ws, slop=rng.choice([1, 1, 2, 3]))
         f = rng.choice(["t", "t", "t", "u"])
         t = query.Term(f, rng.choice(VOCAB[:5]))
         if rng.random() < 0.3:
@@ -511,6 +516,8 @@ def gen_skip_stress(rng):
     q = node(rng.choice([1, 2, 2]))
     if isinstance(q, query.Term):
         q = query.And([q, term()])
+    elif isinstance(q, query.Phrase) and rng.random() < 0.6:
+        q = query.Or([q, term()])
     return q
 
 
